@@ -57,6 +57,10 @@ PTRef Model::evaluate(PTRef term) {
         if (symDef.find(symbol) != symDef.end()) {
             TemplateFunction const & tfun = symDef.at(symbol);
             val = logic.instantiateFunctionTemplate(tfun, nargs);
+        } else if (logic.isUF(symbol)) {
+            // An uninterpreted function the solver has no valuation for: it is the constant function to the default value
+            // of its sort (see getDefinition), so its applications have that value
+            val = logic.getDefaultValuePTRef(logic.getSym(symbol).rsort());
         } else {
             val = logic.insertTerm(symbol, std::move(nargs));
         }
